@@ -1674,7 +1674,14 @@ def select__for_each_pair(self: XPathFunction, context: ta.ContextType = None) \
     elif func.arity != 2:
         raise self.error('XPTY0004', "function arity of 3rd argument must be 2")
 
-    for item1, item2 in zip(self[0].select(context), self[1].select(context)):
+    # The operands are consumed in parallel: each one needs its own focus and bindings
+    contexts = [context, context]
+    if context is not None:
+        for k in range(2):
+            contexts[k] = copy(context)
+            contexts[k].variables = context.variables.copy()
+
+    for item1, item2 in zip(self[0].select(contexts[0]), self[1].select(contexts[1])):
         result = func(item1, item2, context=context)
         if isinstance(result, list):
             yield from result
